@@ -6,7 +6,7 @@ import ast
 from ..evalr import Obj, storage_root
 from ..spec import (ACCEPT, CELLS, COMPLEMENT, CM, FRAUD, GAMMAS, GROUP, SCORES, T, POS, NEG, EP, EN,
                     cell, cm_oracle, exc_name, pc_text, raises, returns, unmodelled_text)
-from ..terms import App, Const, Num, Sym, Tup, add, negate, same, show, to_poly
+from ..terms import App, Const, Num, Sym, Tup, add, negate, same, show, to_poly, compare
 from ..typestate import is_sorted, sortedness, pc_implies_sorted
 from ..terms import atoms_of
 from .. import libmodel
@@ -91,7 +91,13 @@ def run(ctx, chk, tier):
                     chk.violation("R01.1", CMQ, inst + ":layout", "matrix assembled through %s of a threshold-dependent array: %s" % (bad_op, show(tab["_matrix"], 160)),
                                   "cell [..., i, j] holds the count for the same threshold element (a full transpose permutes elements for thresholds of rank >= 2)", ctx.where(CMQ))
                 else:
-                    chk.unknown("R01.1", "cell %s of cm() is built from constructs outside the counting model: %s" % (inst, show(tab[name], 200)))
+                    casts = [a for a in atoms_of(tab[name]) if isinstance(a, App) and a.fn == "fresh" and a.kwd("dtype") in (Const("other"), Const("int")) and value_root(a.args[0]) == T]
+                    if casts:
+                        chk.violation("R01.1", CMQ, inst + ":threshold-cast", "threshold cast before counting: %s" % show(casts[0], 120),
+                                      "the threshold is compared as given (a cast to the scores' / an integer dtype moves a threshold that is not representable there "
+                                      "onto or across a score)", ctx.where(CMQ))
+                    else:
+                        chk.unknown("R01.1", "cell %s of cm() is built from constructs outside the counting model: %s" % (inst, show(tab[name], 200)))
             else:
                 chk.violation("R01.1", CMQ, inst, show(tab[name]), show(oracle[name]) + "   (README rule: accept iff score %s threshold)" % ACCEPT[(sc, ec)],
                               ctx.where(CMQ))
@@ -130,6 +136,7 @@ def run(ctx, chk, tier):
     from . import c09, c10
     c09.from_labels_forwarding(ctx, chk)
     c10.purity(ctx, chk, only=("Scores.cm", "Scores.confusion_matrix", "pointwise_cm"))
+    rates_from_cm(ctx, chk)
 
 
 def value_root(v):
@@ -323,3 +330,78 @@ def run_sortedness(ctx, chk, tier):
     attr_store_scan(ctx, chk)
     n = construction_sites(ctx, chk)
     chk.floor("R01.4", 8 + 6, "4+4 constructor obligations, >=6 construction-site arrays")
+
+
+RATE_DEFS = {  # rate -> (numerator cells, denominator cells)
+    "tpr": (("tp",), ("tp", "fn")), "fnr": (("fn",), ("tp", "fn")), "tnr": (("tn",), ("tn", "fp")), "fpr": (("fp",), ("tn", "fp")),
+    "topr": (("tp", "fp"), ("tp", "fn", "fp", "tn")), "tonr": (("fn", "tn"), ("tp", "fn", "fp", "tn")),
+}
+
+
+def rates_from_cm(ctx, chk, metrics=("tpr", "fnr", "tnr", "fpr", "topr", "tonr"), rule="R01.6"):
+    """Each rate method of Scores is the rate of the object's own confusion matrix at that threshold: numerator and denominator
+    are the documented cell sums of the decision table (easy samples included), NaN iff the denominator is 0."""
+    from ..spec import cm_oracle, GAMMAS
+    from ..terms import add as _add
+    from .thr import rate_term
+    from ..simp import mk_app
+    for sc, ec in GAMMAS:
+        orc = cm_oracle(sc, ec)
+        for m in metrics:
+            got = rate_term(ctx, chk, m, sc, ec)
+            inst = "%s:%s/%s" % (m, sc, ec)
+            q = SCORES + "." + m
+            if got is None:
+                chk.unknown(rule, "rate term of %s not derivable" % inst)
+                continue
+            num = Const(0)
+            for c in RATE_DEFS[m][0]:
+                num = _add(num, orc[c])
+            den = Const(0)
+            for c in RATE_DEFS[m][1]:
+                den = _add(den, orc[c])
+            ok = False
+            if isinstance(got, App) and got.fn == "gdiv" and len(got.args) == 4:
+                gn, gd, fill, guard = got.args
+                ok = same(gn, num) and same(gd, den) and fill.key == "$nan" and same(guard, compare("!=", den, Const(0)))
+                if not ok and same(gd, den) and fill.key == "$nan":
+                    # 1 - complementary quotient
+                    pass
+            if not ok:
+                from ..terms import sub as _sub
+                # complement form 1 - (den - num)/den
+                if isinstance(got, Num) or isinstance(got, App):
+                    comp = None
+                    for a in atoms_of(got):
+                        if isinstance(a, App) and a.fn == "gdiv" and len(a.args) == 4 and same(a.args[1], den):
+                            comp = a
+                    if comp is not None and same(got, _sub(Const(1), comp)) and same(comp.args[0], _sub(den, num)):
+                        ok = True
+            if ok:
+                chk.hold(rule, inst, "%s(t) = (%s) / (%s) of the object's confusion matrix, NaN iff the denominator is 0" % (m, "+".join(RATE_DEFS[m][0]), "+".join(RATE_DEFS[m][1])))
+            else:
+                chk.violation(rule, q, inst, show(got, 260), "(%s) / (%s), i.e. %s / %s guarded by a non-zero denominator" % ("+".join(RATE_DEFS[m][0]), "+".join(RATE_DEFS[m][1]), show(num, 100), show(den, 100)),
+                              ctx.where(q))
+
+
+def cm_cells_rule(ctx, chk, rule="R01.1"):
+    """Prerequisite form of R01.1 for properties that rest on cm(): the four cells are the decision-rule counts in every configuration."""
+    from ..spec import cm_oracle, GAMMAS
+    for sc, ec in GAMMAS:
+        tab = derive_cm_table(ctx, chk, sc, ec, rule=rule)
+        if tab is None:
+            continue
+        orc = cm_oracle(sc, ec)
+        for name in ("tp", "fn", "fp", "tn"):
+            inst = "%s/%s:%s" % (sc, ec, name)
+            if same(tab[name], orc[name]):
+                chk.hold(rule, inst, "cm cell = decision rule", nontrivial=False)
+            elif understood(tab[name]):
+                chk.violation(rule, CMQ, inst, show(tab[name], 200), show(orc[name], 200), ctx.where(CMQ))
+            else:
+                casts = [a for a in atoms_of(tab[name]) if isinstance(a, App) and a.fn == "fresh" and a.kwd("dtype") in (Const("other"), Const("int")) and value_root(a.args[0]) == T]
+                if casts:
+                    chk.violation(rule, CMQ, inst + ":threshold-cast", "threshold cast before counting: %s" % show(casts[0], 120),
+                                  "the threshold is compared as given", ctx.where(CMQ))
+                else:
+                    chk.unknown(rule, "cm cell %s outside the counting model" % inst)
